@@ -210,9 +210,10 @@ func ConstantValue(n *Node, m Mode, fold bool, defs Defs) (val string, ok, murky
 		return string(n.R), true, false
 	case KQuote:
 		if fold {
+			// quoted text is folded character by character: a cased letter makes it a class
 			for _, c := range n.Text {
 				if len(Orbit(c, m.Bytes)) > 1 && !(m.Bytes && c >= 0x80) {
-					return "", false, true // \Q..\E under folding: handled differently across versions
+					return "", false, false
 				}
 			}
 		}
